@@ -297,7 +297,7 @@ def run_one(tape, tier, prop):
     res.stats["queue_size_knob_%s" % session.draw_queue_knob(t)] += 1
     spec = gen_world(t)
     flags = {"skip_brute": False, "skip_case": t.chance(1, 8)}
-    wr = scratch.fresh_disk()
+    wr = scratch.fresh_disk(scratch.draw_place(t))
     rdir = os.path.join(wr, "Rules", "R")
     worlds.write_ruleset(spec, rdir)
     r0 = resume.run_cycle(flags, load=False, trigger=None)
